@@ -274,7 +274,7 @@ def run_texts(binary, texts):
     return answers, HEADER % {'utab': '; '.join(tab)}
 
 
-def model_compare(tag, binary, texts, extra_header='', check_fn='check_asm', term_of=None):
+def model_compare(tag, binary, texts, extra_header='', check_fn='check_asm', term_of=None, src_terms=None):
     """evaluate the model on the texts; -> (answers, bad [(index, code)], header)"""
     answers, header = run_texts(binary, texts)
     terms, idx, crashed = [], [], []
@@ -283,7 +283,8 @@ def model_compare(tag, binary, texts, extra_header='', check_fn='check_asm', ter
         if o is None:
             crashed.append((i, 4))
             continue
-        terms.append(term_of(t, a, o) if term_of else '(%s, %s)' % (codepoints(t), o))
+        src = (src_terms or {}).get(i) or codepoints(t)
+        terms.append(term_of(t, a, o) if term_of else '(%s, %s)' % (src, o))
         idx.append(i)
     bad, errors = vlib.coq_eval(tag, header + extra_header, terms, check_fn, shard_size=200)
     if errors:
